@@ -78,6 +78,17 @@ def text_fixed(arch, exe):
         out.append({"id": "save-" + sfx, "save": True, "root": save_root, "pol": {}, "stream": stream})
         out.append({"id": "load-" + sfx, "doc": saved[0]["mem"], "root": load_root, "pol": {"mm": "throw", "ov": "throw"}, "stream": stream})
     out.append({"id": "save-utf16", "save": True, "root": save_root, "pol": {}, "opt": wide, "stream": True})
+    if arch == "json":
+        # a value the format cannot carry, detected by the writer midway through the save (library-detected error): NaN after other members,
+        # in every output configuration (memory / stream x compact / pretty x UTF-8 / UTF-16)
+        nan_root = {"k": "obj", "ops": [{"op": "req", "ks": S("s"), "t": "str", "v": ["str", [120] * 40]},
+                                        {"op": "req", "ks": S("d"), "t": "f64", "v": ["f64", [127, 248, 0, 0, 0, 0, 0, 0]]},
+                                        {"op": "req", "ks": S("n"), "t": "i32", "v": I(False, 9)}]}
+        for stream in (False, True):
+            for fmt in (False, True):
+                for enc in (("utf8", False), ("utf16le", True)) if stream else (("utf8", False),):
+                    out.append({"id": "save-nan-%s-%s-%s" % ("stream" if stream else "mem", "pretty" if fmt else "compact", enc[0]), "save": True, "root": nan_root, "pol": {},
+                                "opt": {"fmt": fmt, "padChar": 32, "padNum": 2, "enc": enc[0], "bom": enc[1]}, "stream": stream, "exp": "exception"})
     out.append({"id": "load-utf16", "doc": saved[1]["stream"], "root": load_root, "pol": {"mm": "skip", "ov": "skip"}, "stream": True, "enc": "utf16le"})
     return out
 
